@@ -290,8 +290,8 @@ impl ZincEncode for Grid {
         }
         writer.write_all(b"\n")?;
 
-        if self.is_empty() {
-            // No rows to be written
+        if self.is_empty() && self.columns.is_empty() {
+            // No columns and no rows to be written
             writer.write_all(b"empty\n")?;
         } else {
             // Columns
